@@ -587,5 +587,15 @@ PROPS["C09"]["drivers"].append({"name": "c10core", "n_quick": 160, "n_thorough":
 PROPS["C09"]["rule"] += (" Re-use after a server close (c10core, see C10): small and maximal channel_max, channels "
     "closed by the server, re-opened explicitly and automatically until the ids run out.")
 
+# a publish under fragmented writes and a close right behind it: the C01 end-to-end scenarios
+PROPS["C02"]["check_mods"].append("C01")
+PROPS["C02"]["drivers"].append({"name": "c01", "n_quick": 80, "n_thorough": 3000, "timeout": 3000})
+PROPS["C02"]["rule"] += (" Under fragmented writes (c01, see C01): publishes with bodies of 0 / limit / limit+1 / "
+    "2 limit+5 / 1-900 bytes from 1-3 threads over a transport that takes 0 / 1-7 / 8-300 / up to 6000 bytes per "
+    "write from the very first byte, Connection::close right behind them.")
+PROPS["C02"]["explanation"] += (" c01: every channel's publish, header and body frames are on the wire exactly as "
+    "issued, once, in order, whole, also when the buffer is sealed by the close while half written.")
+PROPS["C02"]["trusted_base"] = PROPS["C02"]["trusted_base"] + L2_TRUSTED
+
 # properties not claimed, with the reason (kept current)
 NOT_APPLICABLE = {}
